@@ -1,6 +1,6 @@
 use crate::traits::codec::{MessageDecoder, MessageEncoder};
 use anyhow::Result;
-use bytes::{Buf, Bytes, BytesMut};
+use bytes::{Bytes, BytesMut};
 use serde::{de::DeserializeOwned, Serialize};
 use std::marker::PhantomData;
 
@@ -47,7 +47,7 @@ impl<Item: Serialize> MessageEncoder<Item> for BincodeCodec<Item> {
 /// Returns [Err] if the [BytesMut](bytes::BytesMut) payload fails to deserialize into `Item`.
 impl<Item: DeserializeOwned> MessageDecoder<Item> for BincodeCodec<Item> {
     fn decode(&self, buffer: &mut BytesMut) -> Result<Item> {
-        Ok(bincode::deserialize_from(buffer.reader())?)
+        Ok(bincode::deserialize(&buffer[..])?)
     }
 }
 
